@@ -118,7 +118,7 @@ def Prefix.text : Prefix → Text
 def Prefix.denotes (p : Prefix) (default : Text) (S' : Text) : Prop :=
   match p with
   | .none => S' = default
-  | .sheet S => (∀ ch ∈ S, ch ≠ '!') ∧ (∀ ch ∈ S, ch ≠ ',') ∧ resolveSheet S = some S'
+  | .sheet S => (∀ ch ∈ S, ch ≠ ',') ∧ resolveSheet S = some S'
 
 theorem resolveRanges_spelt_range (p : Prefix) (dflt S' : Text) (hp : p.denotes dflt S')
     (d1 d2 d3 d4 : Bool) (c1 r1 c2 r2 : Nat)
@@ -133,8 +133,8 @@ theorem resolveRanges_spelt_range (p : Prefix) (dflt S' : Text) (hp : p.denotes 
     rw [hp]
     simpa [Prefix.text] using resolveRanges_unqualified _ dflt c1 r1 c2 r2 hch hb hc1 hc2 hc2' hr1 hr2
   | sheet S =>
-    obtain ⟨h1, h2, h3⟩ := hp
-    simpa [Prefix.text] using resolveRanges_qualified S S' _ dflt c1 r1 c2 r2 h1 h2 h3 hch hb hc1 hc2 hc2' hr1 hr2
+    obtain ⟨h2, h3⟩ := hp
+    simpa [Prefix.text] using resolveRanges_qualified S S' _ dflt c1 r1 c2 r2 h2 h3 hch hb hc1 hc2 hc2' hr1 hr2
 
 theorem resolveRanges_spelt_cell (p : Prefix) (dflt S' : Text) (hp : p.denotes dflt S')
     (dc dr : Bool) (c r : Nat) (hc1 : 1 ≤ c) (hc1' : c ≤ 18278) (hr1 : 1 ≤ r) :
@@ -147,8 +147,8 @@ theorem resolveRanges_spelt_cell (p : Prefix) (dflt S' : Text) (hp : p.denotes d
     rw [hp]
     simpa [Prefix.text] using resolveRanges_unqualified _ dflt c r c r hch hb hc1 hc1 hc1' hr1 hr1
   | sheet S =>
-    obtain ⟨h1, h2, h3⟩ := hp
-    simpa [Prefix.text] using resolveRanges_qualified S S' _ dflt c r c r h1 h2 h3 hch hb hc1 hc1 hc1' hr1 hr1
+    obtain ⟨h2, h3⟩ := hp
+    simpa [Prefix.text] using resolveRanges_qualified S S' _ dflt c r c r h2 h3 hch hb hc1 hc1 hc1' hr1 hr1
 
 /-- **rect_shape**: for all bounds `1 ≤ c1, c2 ≤ 18278`, `1 ≤ r1, r2`, every `$` spelling and every
     sheet prefix, `resolve_ranges` of the text `[S!][$]C1[$]R1:[$]C2[$]R2` gives the sheet the prefix stands
@@ -233,8 +233,9 @@ example : resolveRanges "'My Sheet'!$B$2:C$3".toList =
     .val ("My Sheet".toList, [["My Sheet!B2".toList, "My Sheet!C2".toList],
                               ["My Sheet!B3".toList, "My Sheet!C3".toList]]) := by decide
 
-example : (Prefix.sheet "'It''s'".toList).denotes [] "It's".toList := by
-  refine ⟨by decide, by decide, by decide⟩
+example : (Prefix.sheet "'It''s'".toList).denotes [] "It's".toList ∧
+    (Prefix.sheet "A!B".toList).denotes [] "A!B".toList := by
+  refine ⟨⟨by decide, by decide⟩, ⟨by decide, by decide⟩⟩
 
 /-! ## dollar_irrelevant — all `$` spellings of a cell or range address denote the same cells -/
 
@@ -255,36 +256,29 @@ theorem dollar_irrelevant_cell (p : Prefix) (dflt S' : Text) (hp : p.denotes dfl
   unfold rectTexts rangeIncl addrText
   simp
 
-theorem no_dollar_prefix (p : Prefix) (h : ∀ ch ∈ p.text, ch ≠ '$') (coords : Text) :
-    removeChar '$' (p.text ++ coords) = p.text ++ removeChar '$' coords := by
-  rw [removeChar_append, removeChar_id _ _ h]
+theorem coordChar_no_bang (coords : Text) (h : ∀ ch ∈ coords, coordChar ch) : ∀ ch ∈ coords, ch ≠ '!' :=
+  fun ch hc => coordChar_ne ch (h ch hc) '!' (Or.inr (Or.inl rfl))
 
-theorem has_bang_removeChar (s : Text) : has '!' (removeChar '$' s) = has '!' s := by
-  unfold has removeChar
-  induction s with
-  | nil => rfl
-  | cons c t ih =>
-    by_cases hc : c = '$'
-    · subst hc
-      simp only [List.filter_cons, bne_self_eq_false, Bool.false_eq_true, if_false, ih]
-      simp [List.contains_cons]
-    · have : (c != '$') = true := by simpa using hc
-      simp only [List.filter_cons, this, if_true, List.contains_cons, ih]
+/-- `full_address` / `terms` strip the `$` of the coordinates and leave the sheet prefix alone — whatever
+    the sheet name contains (`$`, `!`, …) -/
+theorem stripCoordDollar_spelt (p : Prefix) (coords : Text) (h : ∀ ch ∈ coords, ch ≠ '!') :
+    stripCoordDollar (p.text ++ coords) = p.text ++ removeChar '$' coords := by
+  cases p with
+  | none => simpa [Prefix.text] using stripCoordDollar_unqualified coords h
+  | sheet S => simpa [Prefix.text] using stripCoordDollar_qualified S coords h
 
 /-- **dollar_irrelevant (evaluation)**: a reference to a cell evaluates through `full_address` to the
-    same address whatever its `$` flags (the sheet prefix must itself be free of `$`: D0302). -/
-theorem dollar_irrelevant_fullAddress_cell (p : Prefix) (hp : ∀ ch ∈ p.text, ch ≠ '$')
-    (dc dr : Bool) (c r : Nat) (ctx : Text) :
+    same address whatever its `$` flags, for every sheet prefix. -/
+theorem dollar_irrelevant_fullAddress_cell (p : Prefix) (dc dr : Bool) (c r : Nat) (ctx : Text) :
     fullAddress (p.text ++ coordText dc c dr r) ctx = fullAddress (p.text ++ coordText false c false r) ctx := by
   unfold fullAddress
-  simp only [no_dollar_prefix p hp, removeChar_coordText]
+  simp only [stripCoordDollar_spelt p _ (coordChar_no_bang _ (coordText_chars _ _ _ _)), removeChar_coordText]
 
-theorem dollar_irrelevant_fullAddress_range (p : Prefix) (hp : ∀ ch ∈ p.text, ch ≠ '$')
-    (d1 d2 d3 d4 : Bool) (c1 r1 c2 r2 : Nat) (ctx : Text) :
+theorem dollar_irrelevant_fullAddress_range (p : Prefix) (d1 d2 d3 d4 : Bool) (c1 r1 c2 r2 : Nat) (ctx : Text) :
     fullAddress (p.text ++ rangeText d1 c1 d2 r1 d3 c2 d4 r2) ctx =
     fullAddress (p.text ++ rangeText false c1 false r1 false c2 false r2) ctx := by
   unfold fullAddress
-  simp only [no_dollar_prefix p hp, removeChar_rangeText]
+  simp only [stripCoordDollar_spelt p _ (coordChar_no_bang _ (rangeText_chars _ _ _ _ _ _ _ _)), removeChar_rangeText]
 
 section
 variable (un : Nat → V → V) (bin : Nat → V → V → V) (me : Nat)
@@ -296,16 +290,16 @@ theorem rangeNodeEval_congr (wb : Wb) (ec : Text → Out V) (s s' t t' : Text)
   unfold rangeNodeEval; rw [h]
 
 /-- **dollar_irrelevant**: `=REF` evaluates to the same value for all four `$` spellings of a cell and
-    all sixteen of a range, in every workbook and context. -/
-theorem dollar_irrelevant (wb : Wb) (ec : Text → Out V) (ctx : Text) (p : Prefix) (hp : ∀ ch ∈ p.text, ch ≠ '$')
+    all sixteen of a range, in every workbook and context, for every sheet name (also one with a `$`). -/
+theorem dollar_irrelevant (wb : Wb) (ec : Text → Out V) (ctx : Text) (p : Prefix)
     (d1 d2 d3 d4 : Bool) (c1 r1 c2 r2 : Nat) :
     evalExpr un bin me wb ec ctx (.ref (p.text ++ coordText d1 c1 d2 r1)) =
       evalExpr un bin me wb ec ctx (.ref (p.text ++ coordText false c1 false r1)) ∧
     evalExpr un bin me wb ec ctx (.ref (p.text ++ rangeText d1 c1 d2 r1 d3 c2 d4 r2)) =
       evalExpr un bin me wb ec ctx (.ref (p.text ++ rangeText false c1 false r1 false c2 false r2)) := by
   constructor
-  · exact rangeNodeEval_congr me wb ec ctx ctx _ _ (dollar_irrelevant_fullAddress_cell p hp d1 d2 c1 r1 ctx)
-  · exact rangeNodeEval_congr me wb ec ctx ctx _ _ (dollar_irrelevant_fullAddress_range p hp d1 d2 d3 d4 c1 r1 c2 r2 ctx)
+  · exact rangeNodeEval_congr me wb ec ctx ctx _ _ (dollar_irrelevant_fullAddress_cell p d1 d2 c1 r1 ctx)
+  · exact rangeNodeEval_congr me wb ec ctx ctx _ _ (dollar_irrelevant_fullAddress_range p d1 d2 d3 d4 c1 r1 c2 r2 ctx)
 
 end
 
@@ -314,9 +308,12 @@ theorem dollar_irrelevant_terms (sheetName : Text) (d1 d2 d3 d4 : Bool) (c1 r1 c
     formulaTerms sheetName (.ref (rangeText d1 c1 d2 r1 d3 c2 d4 r2)) =
     formulaTerms sheetName (.ref (rangeText false c1 false r1 false c2 false r2)) := by
   simp only [formulaTerms, Expr.refs, termsLoop, List.contains_nil, Bool.false_eq_true, if_false,
+    stripCoordDollar_unqualified _ (coordChar_no_bang _ (rangeText_chars _ _ _ _ _ _ _ _)),
     removeChar_rangeText, List.nil_append]
 
 example : fullAddress "$A$1".toList "Sheet1".toList = "Sheet1!A1".toList ∧
+    fullAddress "US$!$A$1".toList "Sheet1".toList = "US$!A1".toList ∧
+    fullAddress "A!B!A$1".toList "Sheet1".toList = "A!B!A1".toList ∧
     fullAddress "'x'!A$1".toList "Sheet1".toList ≠ "x!A1".toList := by decide   -- quotes are the tokenizer's job
 
 /-! ## sheet_default — an unqualified reference means the sheet of the cell that holds the formula,
@@ -331,35 +328,35 @@ def qualifyWb (wb : Wb) : Wb :=
       (kc.1, { kc.2 with formula := kc.2.formula.map fun fm =>
         { fm with ast := qualifyExpr (sheetOf kc.1) fm.ast } }) }
 
-/-- no `$` in the text (guard of D0302 for sheet names) -/
-def noDollar (s : Text) : Prop := ∀ ch ∈ s, ch ≠ '$'
+/-- a text that already carries a sheet is its own full address (up to the `$` of its coordinates) -/
+theorem fullAddress_qualified (A b X : Text) (hb : ∀ ch ∈ b, ch ≠ '!') :
+    fullAddress (A ++ '!' :: b) X = A ++ '!' :: removeChar '$' b := by
+  unfold fullAddress
+  rw [stripCoordDollar_qualified A b hb]
+  have : has '!' (A ++ '!' :: removeChar '$' b) = true := (has_iff _ _).mpr (by simp)
+  simp only [this, if_true]
 
-/-- every formula of the workbook sits on a sheet whose name is free of `$` -/
-def sheetsNoDollar (wb : Wb) : Prop :=
-  ∀ addr cell, dget wb.cells addr = some cell → cell.formula.isSome → noDollar (sheetOf addr)
+/-- a text without a sheet gets the context sheet -/
+theorem fullAddress_unqualified (t S : Text) (ht : ∀ ch ∈ t, ch ≠ '!') :
+    fullAddress t S = S ++ '!' :: removeChar '$' t := by
+  unfold fullAddress
+  rw [stripCoordDollar_unqualified t ht]
+  have : has '!' (removeChar '$' t) = false := has_false '!' _ (removeChar_ne_mem '$' t '!' ht)
+  simp only [this, Bool.false_eq_true, if_false]
+  simp
 
-theorem fullAddress_pos (t S : Text) (h : has '!' (removeChar '$' t) = true) :
-    fullAddress t S = removeChar '$' t := by
-  show (if has '!' (removeChar '$' t) = true then removeChar '$' t else S ++ ['!'] ++ removeChar '$' t) = _
-  rw [if_pos h]
-
-theorem fullAddress_neg (t S : Text) (h : ¬ has '!' (removeChar '$' t) = true) :
-    fullAddress t S = S ++ ['!'] ++ removeChar '$' t := by
-  show (if has '!' (removeChar '$' t) = true then removeChar '$' t else S ++ ['!'] ++ removeChar '$' t) = _
-  rw [if_neg h]
-
-theorem removeChar_idem (c : Char) (s : Text) : removeChar c (removeChar c s) = removeChar c s := by
-  unfold removeChar; simp [List.filter_filter]
-
-theorem fullAddress_idem (t S X : Text) (hS : noDollar S) : fullAddress (fullAddress t S) X = fullAddress t S := by
-  by_cases h : has '!' (removeChar '$' t) = true
-  · rw [fullAddress_pos t S h, fullAddress_pos _ X (by rw [removeChar_idem]; exact h), removeChar_idem]
-  · rw [fullAddress_neg t S h]
-    have e : removeChar '$' (S ++ ['!'] ++ removeChar '$' t) = S ++ ['!'] ++ removeChar '$' t := by
-      rw [removeChar_append, removeChar_append, removeChar_id _ S hS, removeChar_idem]
-      simp [removeChar]
-    have hb : has '!' (S ++ ['!'] ++ removeChar '$' t) = true := (has_iff _ _).mpr (by simp)
-    rw [fullAddress_pos _ X (by rw [e]; exact hb), e]
+/-- qualifying twice is qualifying once: the full address of a reference no longer depends on a context -/
+theorem fullAddress_idem (t S X : Text) : fullAddress (fullAddress t S) X = fullAddress t S := by
+  cases hr : rsplitLast '!' t with
+  | some p =>
+    obtain ⟨sh, co⟩ := p
+    obtain ⟨ht, hco⟩ := rsplitLast_some_mem '!' t sh co hr
+    rw [ht, fullAddress_qualified sh co S hco,
+      fullAddress_qualified sh _ X (removeChar_ne_mem '$' co '!' hco), removeChar_idem]
+  | none =>
+    have ht := rsplitLast_none_mem '!' t hr
+    rw [fullAddress_unqualified t S ht,
+      fullAddress_qualified S _ X (removeChar_ne_mem '$' t '!' ht), removeChar_idem]
 
 section
 variable (un : Nat → V → V) (bin : Nat → V → V → V) (me : Nat)
@@ -367,14 +364,14 @@ variable (un : Nat → V → V) (bin : Nat → V → V → V) (me : Nat)
 /-- **an unqualified reference in a formula on sheet `S` is the reference `S!…`**: evaluating the
     qualified formula in ANY context gives what the original formula gives in the context of `S`. -/
 theorem evalExpr_qualify (wb wb' : Wb) (hr : wb'.ranges = wb.ranges) (ec : Text → Out V) (S X : Text)
-    (hS : noDollar S) (e : Expr) :
+    (e : Expr) :
     evalExpr un bin me wb' ec X (qualifyExpr S e) = evalExpr un bin me wb ec S e := by
   induction e with
   | num z => rfl
   | ref t =>
     simp only [qualifyExpr, Expr.mapRef, evalExpr]
     unfold rangeNodeEval
-    rw [fullAddress_idem t S X hS, hr]
+    rw [fullAddress_idem t S X, hr]
   | un f a ih =>
     simp only [qualifyExpr, Expr.mapRef, evalExpr] at ih ⊢
     rw [ih]
@@ -410,11 +407,12 @@ theorem evalCellP_sheetOf (wb : Wb) : ∀ (fuel : Nat) (ev : List Text) (addr : 
       | some fm => simp [evalCellP, evalCell, hc, hf, ih]
 
 /-- **sheet_default**: evaluating any cell of a workbook gives the same result as evaluating it in the
-    workbook whose formulas have all been qualified with the sheet of their own cell — and there the
+    workbook whose formulas have all been qualified with the sheet of their own cell (whatever the sheet
+    names contain) — and there the
     context sheet is irrelevant (`ctxOf` arbitrary: the sheet of the top-level cell, of the calling cell,
     a constant …).  Hence an unqualified reference in the formula of `S!x` reads sheet `S` however deep
     and across however many sheets the evaluation chain runs (induction on the depth `fuel`). -/
-theorem sheet_default (wb : Wb) (hwb : sheetsNoDollar wb) (ctxOf : Text → Text) :
+theorem sheet_default (wb : Wb) (ctxOf : Text → Text) :
     ∀ (fuel : Nat) (ev : List Text) (addr : Text),
       evalCellP un bin me ctxOf (qualifyWb wb) fuel ev addr = evalCell un bin me wb fuel ev addr
   | 0, _, _ => rfl
@@ -432,26 +430,28 @@ theorem sheet_default (wb : Wb) (hwb : sheetsNoDollar wb) (ctxOf : Text → Text
       cases hf : cell.formula with
       | none => simp [hf]
       | some fm =>
-        have hS : noDollar (sheetOf addr) := hwb addr cell hc (by simp [hf])
         have ih : evalCellP un bin me ctxOf (qualifyWb wb) fuel (ev ++ [addr]) =
             evalCell un bin me wb fuel (ev ++ [addr]) :=
-          funext fun a => sheet_default wb hwb ctxOf fuel (ev ++ [addr]) a
+          funext fun a => sheet_default wb ctxOf fuel (ev ++ [addr]) a
         simp only [Option.map_some, hf, ih]
-        rw [evalExpr_qualify un bin me wb (qualifyWb wb) rfl _ (sheetOf addr) (ctxOf addr) hS fm.ast]
+        rw [evalExpr_qualify un bin me wb (qualifyWb wb) rfl _ (sheetOf addr) (ctxOf addr) fm.ast]
 
 /-- in the qualified workbook no reference depends on a context: every reference carries its sheet -/
-theorem qualified_has_sheet (S t : Text) : has '!' (removeChar '$' (fullAddress t S)) = true := by
-  unfold fullAddress
-  by_cases h : has '!' (removeChar '$' t) = true
-  · simp only [h, if_true]; rw [has_bang_removeChar]; exact h
-  · simp only [h, if_false]; rw [has_bang_removeChar]; exact (has_iff _ _).mpr (by simp)
+theorem qualified_has_sheet (S t : Text) : has '!' (fullAddress t S) = true := by
+  cases hr : rsplitLast '!' t with
+  | some p =>
+    obtain ⟨sh, co⟩ := p
+    obtain ⟨ht, hco⟩ := rsplitLast_some_mem '!' t sh co hr
+    rw [ht, fullAddress_qualified sh co S hco]; exact (has_iff _ _).mpr (by simp)
+  | none =>
+    rw [fullAddress_unqualified t S (rsplitLast_none_mem '!' t hr)]; exact (has_iff _ _).mpr (by simp)
 
 end
 
-/-- the sheet of a cell address is the text before its `!` -/
-theorem sheetOf_key (S rest : Text) (h : ∀ ch ∈ S, ch ≠ '!') : sheetOf (S ++ '!' :: rest) = S := by
+/-- the sheet of a cell address is the text before its LAST `!` (the sheet name may contain `!`) -/
+theorem sheetOf_key (S rest : Text) (h : ∀ ch ∈ rest, ch ≠ '!') : sheetOf (S ++ '!' :: rest) = S := by
   unfold sheetOf
-  rw [splitOn_append '!' S rest h]; rfl
+  rw [rsplitLast_append '!' S rest h]
 
 /-! ## range_values_once — a range hands every member's current value over, exactly once
 
@@ -544,14 +544,14 @@ theorem build_registers_resolved_ranges (dflt : Text) (items : List (Text × Ite
   compile_RangesOK dflt items names wb h
 
 /-- one term of `build_ranges`: a range term `S!…:…` is registered under its own text, afterwards every
-    member has a cell; cells that existed keep their content, the new ones hold the empty text `''`
-    (the origin of known finding D0301). -/
+    member has a cell; cells that existed keep their content, the new ones are blank
+    (`XLCell(address, None)`). -/
 theorem build_ranges_term (dflt : Text) (wb wb' : Wb) (term : Text) (hok : RangesOK wb)
     (hb : buildRangesTerm dflt wb term = .val wb') (h1 : has ':' term = true) (h2 : has '!' term = true) :
     (∃ sh m, resolveRanges term = .val (sh, m) ∧ dget wb'.ranges term = some m ∧
         ∀ a ∈ m.flatten, dhas wb'.cells a = true) ∧
     (∀ k, dhas wb.cells k = true → dget wb'.cells k = dget wb.cells k) ∧
-    (∀ k, dhas wb.cells k = false → dhas wb'.cells k = true → dget wb'.cells k = some ⟨.text [], none⟩) := by
+    (∀ k, dhas wb.cells k = false → dhas wb'.cells k = true → dget wb'.cells k = some ⟨.blank, none⟩) := by
   obtain ⟨_, _, a, b, c⟩ := buildRangesTerm_spec dflt wb wb' term hok hb
   exact ⟨c h1 h2, a, b⟩
 
@@ -577,7 +577,7 @@ variable (un : Nat → V → V) (bin : Nat → V → V → V) (me : Nat)
     `S![$]C1[$]R1:[$]C2[$]R2` whose range is registered evaluates — under the D6 guard — to the matrix of the
     current values of the cells of `Spec.rect`, row-major, each exactly once. -/
 theorem range_reference_reads_rect (wb : Wb) (hok : RangesOK wb) (ec : Text → Out V) (ctx S : Text)
-    (hd : noDollar S) (hp : (Prefix.sheet S).denotes [] S)
+    (hp : (Prefix.sheet S).denotes [] S)
     (d1 d2 d3 d4 : Bool) (c1 r1 c2 r2 : Nat)
     (hc1 : 1 ≤ c1) (hc12 : c1 ≤ c2) (hc2' : c2 ≤ 18278) (hr1 : 1 ≤ r1) (hr12 : r1 ≤ r2)
     (rows : List (List Text))
@@ -587,19 +587,12 @@ theorem range_reference_reads_rect (wb : Wb) (hok : RangesOK wb) (ec : Text → 
     evalExpr un bin me wb ec ctx (.ref ((Prefix.sheet S).text ++ rangeText d1 c1 d2 r1 d3 c2 d4 r2)) =
       .val (.arr ((Spec.C03.rect ⟨S, c1, r1, c2, r2⟩).map (·.map fun a => valOf ec (addrText a)))) := by
   have hrect := registered_range_is_rect wb hok S S hp c1 r1 c2 r2 hc1 (by omega) (by omega) hc2' hr1 (by omega) rows hkey
-  have hpd : ∀ ch ∈ (Prefix.sheet S).text, ch ≠ '$' := by
-    intro ch h
-    simp only [Prefix.text, List.mem_append, List.mem_singleton] at h
-    rcases h with h | h
-    · exact hd ch h
-    · subst h; decide
   have hfa : fullAddress ((Prefix.sheet S).text ++ rangeText d1 c1 d2 r1 d3 c2 d4 r2) ctx =
       (Prefix.sheet S).text ++ rangeText false c1 false r1 false c2 false r2 := by
-    rw [dollar_irrelevant_fullAddress_range (Prefix.sheet S) hpd d1 d2 d3 d4 c1 r1 c2 r2 ctx]
-    have hb : has '!' (removeChar '$' ((Prefix.sheet S).text ++ rangeText false c1 false r1 false c2 false r2)) = true := by
-      rw [has_bang_removeChar]; exact (has_iff _ _).mpr (by simp [Prefix.text])
-    rw [fullAddress_pos _ ctx hb, no_dollar_prefix _ hpd, removeChar_rangeText]
-    simp [rangeText, coordText, dollar]
+    have e : (Prefix.sheet S).text ++ rangeText d1 c1 d2 r1 d3 c2 d4 r2 = S ++ '!' :: rangeText d1 c1 d2 r1 d3 c2 d4 r2 := by
+      simp [Prefix.text]
+    rw [e, fullAddress_qualified S _ ctx (coordChar_no_bang _ (rangeText_chars _ _ _ _ _ _ _ _)), removeChar_rangeText]
+    simp [Prefix.text, rangeText, coordText, dollar]
   have hne : ∀ row ∈ rows, row ≠ [] := by
     rw [hrect]
     intro row hrow
@@ -624,34 +617,21 @@ def Prefix.sheetOpt : Prefix → Option Text
   | .none => Option.none
   | .sheet S => Option.some S
 
-theorem fullAddress_spelt (p : Prefix) (ctx E coords : Text) (hE : p.sheetOpt.getD ctx = E) (hd : noDollar E)
+theorem fullAddress_spelt (p : Prefix) (ctx E coords : Text) (hE : p.sheetOpt.getD ctx = E)
     (hch : ∀ ch ∈ coords, coordChar ch) :
     fullAddress (p.text ++ coords) ctx = E ++ ['!'] ++ removeChar '$' coords := by
-  have hnb : ∀ ch ∈ removeChar '$' coords, ch ≠ '!' := by
-    intro ch h
-    unfold removeChar at h
-    exact coordChar_ne ch (hch ch (List.mem_filter.mp h).1) '!' (Or.inr (Or.inl rfl))
+  have hnb := coordChar_no_bang coords hch
   cases p with
   | none =>
     simp only [Prefix.sheetOpt, Option.getD_none] at hE
     subst hE
     simp only [Prefix.text, List.nil_append]
-    rw [fullAddress_neg]
-    intro h
-    exact absurd rfl (hnb '!' ((has_iff _ _).mp h))
+    rw [fullAddress_unqualified coords ctx hnb]; simp
   | sheet S =>
     simp only [Prefix.sheetOpt, Option.getD_some] at hE
     subst hE
-    have hpd : ∀ ch ∈ (Prefix.sheet S).text, ch ≠ '$' := by
-      intro ch h
-      simp only [Prefix.text, List.mem_append, List.mem_singleton] at h
-      rcases h with h | h
-      · exact hd ch h
-      · subst h; decide
-    have hb : has '!' (removeChar '$' ((Prefix.sheet S).text ++ coords)) = true := by
-      rw [has_bang_removeChar]; exact (has_iff _ _).mpr (by simp [Prefix.text])
-    rw [fullAddress_pos _ ctx hb, no_dollar_prefix _ hpd]
-    rfl
+    have e : (Prefix.sheet S).text ++ coords = S ++ '!' :: coords := by simp [Prefix.text]
+    rw [e, fullAddress_qualified S coords ctx hnb]; simp
 
 /-- the scalar of an outcome (blank when it is not a scalar value) -/
 def sval : Out V → S
@@ -699,11 +679,11 @@ section
 variable (un : Nat → V → V) (bin : Nat → V → V → V) (me : Nat)
 
 /-- **reference_denotes (cell)**: a reference to a cell — any `$` spelling, unqualified or qualified with a
-    sheet name free of `$` — evaluates to what `Spec.denoteRef` says: the current value of the cell with that
+    sheet name of any spelling (`$`, `!`, blanks, apostrophes) — evaluates to what `Spec.denoteRef` says: the current value of the cell with that
     sheet (the formula's own sheet when unqualified), column and row. -/
 theorem reference_denotes_cell (wb : Wb) (ec : Text → Out V) (names : List Char → Option Spec.C03.Target)
     (ctx : Text) (p : Prefix) (hctx : ctx ≠ []) (hS : ∀ S, p = .sheet S → S ≠ [])
-    (hd : noDollar (p.sheetOpt.getD ctx)) (dc dr : Bool) (c r : Nat)
+    (dc dr : Bool) (c r : Nat)
     (hnr : dget wb.ranges (addrText ⟨p.sheetOpt.getD ctx, c, r⟩) = none) :
     evalExpr un bin me wb ec ctx (.ref (p.text ++ coordText dc c dr r)) =
       Spec.C03.denoteRef (fun a => ec (addrText a)) names ctx (.cell p.sheetOpt c r) := by
@@ -711,7 +691,7 @@ theorem reference_denotes_cell (wb : Wb) (ec : Text → Out V) (names : List Cha
     cases p with
     | none => simpa [Prefix.sheetOpt] using hctx
     | sheet S => simpa [Prefix.sheetOpt] using hS S rfl
-  have hfa := fullAddress_spelt p ctx _ (coordText dc c dr r) rfl hd (coordText_chars dc c dr r)
+  have hfa := fullAddress_spelt p ctx _ (coordText dc c dr r) rfl (coordText_chars dc c dr r)
   rw [removeChar_coordText] at hfa
   have hkey : addrText ⟨p.sheetOpt.getD ctx, c, r⟩ = p.sheetOpt.getD ctx ++ ['!'] ++ (colLetters c ++ natRepr r) := by
     simp [addrText, cellKey, sheetPrefix, hne]
@@ -723,7 +703,7 @@ theorem reference_denotes_cell (wb : Wb) (ec : Text → Out V) (names : List Cha
     the addressed sheet (the formula's own sheet when unqualified), row-major, each exactly once. -/
 theorem reference_denotes_range (wb : Wb) (hok : RangesOK wb) (ec : Text → Out V)
     (names : List Char → Option Spec.C03.Target) (ctx : Text) (p : Prefix) (E : Text)
-    (hE : p.sheetOpt.getD ctx = E) (hd : noDollar E) (hp : (Prefix.sheet E).denotes [] E)
+    (hE : p.sheetOpt.getD ctx = E) (hp : (Prefix.sheet E).denotes [] E)
     (d1 d2 d3 d4 : Bool) (c1 r1 c2 r2 : Nat)
     (hc1 : 1 ≤ c1) (hc12 : c1 ≤ c2) (hc2' : c2 ≤ 18278) (hr1 : 1 ≤ r1) (hr12 : r1 ≤ r2)
     (rows : List (List Text))
@@ -736,13 +716,13 @@ theorem reference_denotes_range (wb : Wb) (hok : RangesOK wb) (ec : Text → Out
   -- the reference, whatever its spelling, is evaluated through the key of the qualified, `$`-free text
   have h1 : fullAddress (p.text ++ rangeText d1 c1 d2 r1 d3 c2 d4 r2) ctx =
       fullAddress ((Prefix.sheet E).text ++ rangeText false c1 false r1 false c2 false r2) ctx := by
-    rw [fullAddress_spelt p ctx E _ hE hd (rangeText_chars _ _ _ _ _ _ _ _),
-      fullAddress_spelt (Prefix.sheet E) ctx E _ rfl hd (rangeText_chars _ _ _ _ _ _ _ _),
+    rw [fullAddress_spelt p ctx E _ hE (rangeText_chars _ _ _ _ _ _ _ _),
+      fullAddress_spelt (Prefix.sheet E) ctx E _ rfl (rangeText_chars _ _ _ _ _ _ _ _),
       removeChar_rangeText, removeChar_rangeText]
   have h2 : evalExpr un bin me wb ec ctx (.ref (p.text ++ rangeText d1 c1 d2 r1 d3 c2 d4 r2)) =
       evalExpr un bin me wb ec ctx (.ref ((Prefix.sheet E).text ++ rangeText false c1 false r1 false c2 false r2)) :=
     rangeNodeEval_congr me wb ec ctx ctx _ _ h1
-  rw [h2, range_reference_reads_rect un bin me wb hok ec ctx E hd hp false false false false c1 r1 c2 r2
+  rw [h2, range_reference_reads_rect un bin me wb hok ec ctx E hp false false false false c1 r1 c2 r2
     hc1 hc12 hc2' hr1 hr12 rows hkey hs hguard]
   simp only [Spec.C03.denoteRef, hE]
   rw [rangeValues_scalars]
@@ -773,6 +753,16 @@ theorem const_reads_itself (wb : Wb) (fuel : Nat) (ev : List Text) (addr : Text)
     (h : dget wb.cells addr = some ⟨v, none⟩) :
     evalCell un bin me wb (fuel + 1) ev addr = .val (.s v) := by
   unfold evalCell; simp [h]
+
+/-- **blank_not_error (cells created by `build_ranges`)**: a cell that `build_ranges` creates for an empty
+    member of a referenced range evaluates to BLANK, exactly like a cell that was never stored — at every
+    depth, whoever reads it (D0301 fixed). -/
+theorem blank_materialised (dflt : Text) (wb wb' : Wb) (term : Text) (hok : RangesOK wb)
+    (hb : buildRangesTerm dflt wb term = .val wb') (k : Text)
+    (h1 : dhas wb.cells k = false) (h2 : dhas wb'.cells k = true) (fuel : Nat) (ev : List Text) :
+    evalCell un bin me wb' (fuel + 1) ev k = .val (.s .blank) := by
+  obtain ⟨_, _, _, hnew, _⟩ := buildRangesTerm_spec dflt wb wb' term hok hb
+  exact const_reads_itself un bin me wb' fuel ev k .blank (hnew k h1 h2)
 
 /-- **blank_not_error (reference)**: `=REF` to a missing cell is BLANK for every spelling and context. -/
 theorem blank_ref (wb : Wb) (fuel : Nat) (ev : List Text) (ctx t : Text)
@@ -827,42 +817,21 @@ theorem quoteSheet_chars (s : Text) : ∀ ch ∈ quoteSheet s, ch ∈ s ∨ ch =
     · exact Or.inr (by simpa using h)
 
 /-- **the address a defined name is bound to**: for the text `'Sheet'!<coords>` (quoted spelling, any
-    `$` in the coordinates) it is `Sheet!<coords without $>` — the very address a reference with the same
+    `$` in the coordinates, any non-empty sheet name — also with `$`, `!` or apostrophes) it is `Sheet!<coords without $>` — the very address a reference with the same
     text has in a formula (`full_address` of the token the tokenizer makes of it). -/
-theorem nameAddress_quoted (S coords X : Text) (hne : S ≠ []) (hd : noDollar S) (hb : ∀ ch ∈ S, ch ≠ '!')
+theorem nameAddress_quoted (S coords X : Text) (hne : S ≠ [])
     (hch : ∀ ch ∈ coords, coordChar ch) :
     nameAddress (quoteSheet S ++ '!' :: coords) = S ++ '!' :: removeChar '$' coords ∧
     fullAddress (tokRef (quoteSheet S ++ '!' :: coords)) X = S ++ '!' :: removeChar '$' coords := by
-  have hq1 : ∀ ch ∈ quoteSheet S, ch ≠ '$' := by
-    intro ch h
-    rcases quoteSheet_chars S ch h with h | h
-    · exact hd ch h
-    · subst h; decide
-  have hq2 : ∀ ch ∈ quoteSheet S, ch ≠ '!' := by
-    intro ch h
-    rcases quoteSheet_chars S ch h with h | h
-    · exact hb ch h
-    · subst h; decide
-  have hc2 : ∀ ch ∈ removeChar '$' coords, ch ≠ '!' := by
-    intro ch h
-    unfold removeChar at h
-    exact coordChar_ne ch (hch ch (List.mem_filter.mp h).1) '!' (Or.inr (Or.inl rfl))
-  have e1 : removeChar '$' (quoteSheet S ++ '!' :: coords) = quoteSheet S ++ '!' :: removeChar '$' coords := by
-    rw [removeChar_append, removeChar_id _ _ hq1]
-    show _ ++ removeChar '$' (['!'] ++ coords) = _
-    rw [removeChar_append]; simp [removeChar]
+  have hnb := coordChar_no_bang coords hch
+  have hc2 : ∀ ch ∈ removeChar '$' coords, ch ≠ '!' := removeChar_ne_mem '$' coords '!' hnb
   constructor
   · unfold nameAddress
-    simp only [e1, splitOn_append '!' _ _ hq2, splitOn_no_sep '!' _ hc2, resolveSheet_quoted S hne, Option.getD_some]
+    simp only [stripCoordDollar_qualified _ coords hnb, rsplitLast_append '!' _ _ hc2, resolveSheet_quoted S hne,
+      Option.getD_some]
     simp
-  · rw [tokRef_quoted S coords (fun c hc => coordChar_ne c (hch c hc) '\'' (Or.inr (Or.inr rfl)))]
-    unfold fullAddress
-    have e2 : removeChar '$' (S ++ '!' :: coords) = S ++ '!' :: removeChar '$' coords := by
-      rw [removeChar_append, removeChar_id _ _ hd]
-      show _ ++ removeChar '$' (['!'] ++ coords) = _
-      rw [removeChar_append]; simp [removeChar]
-    have hb' : has '!' (S ++ '!' :: removeChar '$' coords) = true := (has_iff _ _).mpr (by simp)
-    simp only [e2, hb', if_true]
+  · rw [tokRef_quoted S coords (fun c hc => coordChar_ne c (hch c hc) '\'' (Or.inr (Or.inr rfl))),
+      fullAddress_qualified S coords X hnb]
 
 /-- what `build_defined_names` records for one name: a cell name is bound to the address of its text
     when that cell exists, a range name is bound to the key under which its matrix is registered. -/
@@ -906,28 +875,18 @@ section
 variable (un : Nat → V → V) (bin : Nat → V → V → V) (me : Nat)
 
 /-- **name_denotes**: in a formula, a defined name bound to the text `'Sheet'!<coords>` (a cell or a
-    range, any `$`) evaluates exactly as the reference `'Sheet'!<coords>` written in its place — in every
-    workbook, context and for every evaluation of the cells. -/
+    range, any `$`, any non-empty sheet name) evaluates exactly as the reference `'Sheet'!<coords>` written in
+    its place — in every workbook, context and for every evaluation of the cells. -/
 theorem name_denotes (wb : Wb) (ec : Text → Out V) (ctx : Text) (names : Dict Defn) (n : Text) (d : Defn)
-    (S coords : Text) (hne : S ≠ []) (hd : noDollar S) (hb : ∀ ch ∈ S, ch ≠ '!')
-    (hch : ∀ ch ∈ coords, coordChar ch)
+    (S coords : Text) (hne : S ≠ []) (hch : ∀ ch ∈ coords, coordChar ch)
     (hbound : dget names n = some d) (haddr : defnAddress d = nameAddress (quoteSheet S ++ '!' :: coords)) :
     evalExpr un bin me wb ec ctx (substNames names (.ref n)) =
     evalExpr un bin me wb ec ctx (.ref (tokRef (quoteSheet S ++ '!' :: coords))) := by
-  obtain ⟨h1, h2⟩ := nameAddress_quoted S coords ctx hne hd hb hch
+  obtain ⟨h1, h2⟩ := nameAddress_quoted S coords ctx hne hch
   simp only [substNames, Expr.mapRef, hbound, evalExpr]
   apply rangeNodeEval_congr
-  rw [h2, haddr, h1]
-  unfold fullAddress
-  have e2 : removeChar '$' (S ++ '!' :: removeChar '$' coords) = S ++ '!' :: removeChar '$' coords := by
-    rw [removeChar_append, removeChar_id _ _ hd]
-    show _ ++ removeChar '$' (['!'] ++ removeChar '$' coords) = _
-    rw [removeChar_append]
-    have : removeChar '$' (removeChar '$' coords) = removeChar '$' coords := by
-      unfold removeChar; simp [List.filter_filter]
-    rw [this]; simp [removeChar]
-  have hb' : has '!' (S ++ '!' :: removeChar '$' coords) = true := (has_iff _ _).mpr (by simp)
-  simp only [e2, hb', if_true]
+  rw [h2, haddr, h1,
+    fullAddress_qualified S _ ctx (removeChar_ne_mem '$' coords '!' (coordChar_no_bang coords hch)), removeChar_idem]
 
 /-- a name that is not bound is left alone (and names never capture other operands) -/
 theorem name_unbound (names : Dict Defn) (t : Text) (h : dget names t = none) :
@@ -941,7 +900,7 @@ theorem evaluate_name (wb : Wb) (fuel : Nat) (n a : Text) (h : dget wb.names n =
 
 end
 
-/-! ## the model on concrete workbooks (kernel-evaluated): fixed defects stay fixed, known findings -/
+/-! ## the model on concrete workbooks (kernel-evaluated): fixed defects stay fixed, known finding D6 -/
 
 def t (s : String) : Text := s.toList
 def num (z : Int) : Item := .const (.num (.int z))
@@ -986,32 +945,20 @@ def d6Workbook : Wb :=
 example : evaluate cUn cBin Gen.maxEmpty d6Workbook 5 (t "Sheet1!P1") = .val (.s (.num (.flt 1))) ∧
     evaluate cUn cBin 1000 d6Workbook 5 (t "Sheet1!P1") = .val (.s (.num (.flt 6))) := by decide +kernel
 
-/-- **D0301 (known)**: the empty cell `A2` lies inside the referenced range `A1:A3`, is materialised with
-    the value `''`, and `=A2+0` is `#VALUE!`; the never-stored `Z9` gives `0`.
-    FULL STATEMENT that fails: "every cell without content reads as BLANK". -/
+/-- D0301 (fixed): the empty cell `A2` lies inside the referenced range `A1:A3`; `=A2+0` is 0, exactly
+    like the never-stored `Z9` -/
 example : evalIn [(t "A1", num 1), (t "A3", num 5), (t "P1", .formula (sumOf "A1:A3")),
-      (t "P2", .formula (plus (.ref (t "A2")) (.num 0)))] [] "Sheet1!P2" = .val (.s (.err .value)) ∧
+      (t "P2", .formula (plus (.ref (t "A2")) (.num 0)))] [] "Sheet1!P2" = .val (.s (.num (.flt 0))) ∧
     evalIn [(t "A1", num 1), (t "A3", num 5), (t "P1", .formula (sumOf "A1:A3")),
       (t "P2", .formula (plus (.ref (t "Z9")) (.num 0)))] [] "Sheet1!P2" = .val (.s (.num (.flt 0))) := by
   decide +kernel
 
-/-- **D0302 (known)**: the guard `noDollar` of `sheet_default` / `dollar_irrelevant` is needed — a
-    reference to a sheet named `US$` reads sheet `US` -/
-example : evalIn [(t "US$!A1", num 3), (t "Sheet1!P1", .formula (plus (.ref (t "'US$'!A1")) (.num 0)))] []
-    "Sheet1!P1" = .val (.s (.num (.flt 0))) ∧
-    fullAddress (t "US$!A1") (t "Sheet1") = t "US!A1" := by decide +kernel
-
-theorem dget_some_mem {α} : ∀ (d : Dict α) (k : Text) (v : α), dget d k = some v → k ∈ d.map (·.1)
-  | [], _, _, h => by simp [dget] at h
-  | (k', v') :: d, k, v, h => by
-    by_cases hk : k' = k
-    · subst hk; simp
-    · simp only [dget, hk, if_false] at h
-      simp [dget_some_mem d k v h]
-
-/-- `sheetsNoDollar` can be read off the keys of the model -/
-theorem sheetsNoDollar_of_keys (wb : Wb) (h : ∀ k ∈ wb.cells.map (·.1), ∀ ch ∈ sheetOf k, ch ≠ '$') :
-    sheetsNoDollar wb := fun addr cell hc _ => h addr (dget_some_mem _ _ _ hc)
+/-- D0302 / D1102 (fixed): sheets named `US$` and `A!B` are read, also through unqualified references of
+    their own formulas and through defined names -/
+example : evalIn [(t "US$!A1", num 3), (t "A!B!A1", num 40), (t "A!B!A2", num 500),
+      (t "A!B!C1", .formula (plus (.ref (t "$A$1")) (.un 0 (.ref (t "nm"))))),
+      (t "Sheet1!P1", .formula (plus (.ref (t "'US$'!$A$1")) (.ref (t "'A!B'!C1"))))]
+      [(t "nm", t "'A!B'!$A$1:$A$2")] "Sheet1!P1" = .val (.s (.num (.flt 583))) := by decide +kernel
 
 def twoSheets : Wb :=
   match compile (t "Sheet1") [(t "Sheet2!A1", .formula (.ref (t "B1"))), (t "A1", .formula (.ref (t "B1"))),
@@ -1019,20 +966,18 @@ def twoSheets : Wb :=
   | .val wb => wb
   | _ => {}
 
-/-- non-vacuity of `sheet_default`: a workbook with unqualified references on two sheets meets
-    `sheetsNoDollar`, and its two `=B1` read their own sheets -/
-example : sheetsNoDollar twoSheets ∧
-    evaluate cUn cBin Gen.maxEmpty twoSheets 5 (t "Sheet1!A1") = .val (.s (.num (.int 1))) ∧
+/-- `sheet_default` at work: two `=B1` on two sheets read their own sheets -/
+example : evaluate cUn cBin Gen.maxEmpty twoSheets 5 (t "Sheet1!A1") = .val (.s (.num (.int 1))) ∧
     evaluate cUn cBin Gen.maxEmpty twoSheets 5 (t "Sheet2!A1") = .val (.s (.num (.int 2))) :=
-  ⟨sheetsNoDollar_of_keys _ (by decide), by decide +kernel, by decide +kernel⟩
+  ⟨by decide +kernel, by decide +kernel⟩
 
 /-- non-vacuity of `reference_denotes_range` / `range_reference_reads_rect`: a built model (which satisfies
     `RangesOK` by `build_registers_resolved_ranges`) holds the key of `=SUM($A$1:B2)`, and the prefix
-    hypotheses are met by `Sheet1` -/
+    hypothesis is met by `Sheet1` -/
 example : (match compile (t "Sheet1") [(t "A1", num 1), (t "B2", num 2), (t "C1", .formula (sumOf "$A$1:B2"))] [] with
     | .val wb => (dget wb.ranges ((Prefix.sheet (t "Sheet1")).text ++ rangeText false 1 false 1 false 2 false 2)).isSome
     | _ => false) = true ∧
-    (Prefix.sheet (t "Sheet1")).denotes [] (t "Sheet1") ∧ noDollar (t "Sheet1") :=
-  ⟨by decide +kernel, ⟨by decide, by decide, by decide⟩, by unfold noDollar; decide⟩
+    (Prefix.sheet (t "Sheet1")).denotes [] (t "Sheet1") :=
+  ⟨by decide +kernel, ⟨by decide, by decide⟩⟩
 
 end XlVerif.Props.C03
